@@ -80,8 +80,8 @@ def parseIndent (enc : String) : Option (List ILine × Bool) :=
 
 def strsKinds (enc : String) : Option (List Bool) :=
   enc.toList.mapM fun c => match c with
-    | 'b' | 'R' => some true
-    | 's' | 'f' | 'u' | 'r' | 'F' => some false
+    | 'b' | 'R' | 'B' => some true
+    | 's' | 'f' | 'u' | 'r' | 'F' | 'e' | 'E' | 'G' | 'T' => some false
     | _ => none
 
 def handle : List String → String
